@@ -71,6 +71,9 @@ def main(argv=None):
         return 3
     if args.replay:
         return do_replay(prop, pid, args.replay)
+    if getattr(prop, "NOT_APPLICABLE", None):
+        print(f"CHECKER-ERROR property={pid} is not claimed (not applicable: see MANIFEST.json); no check is registered and no evidence is written")
+        return 3
     rc = run_property(prop, pid, tier, seed, args, t0)
     return rc
 
